@@ -467,6 +467,39 @@ def run_grid(ctx, n):
     ctx.run_grid(grid_cases(), check)
 
 
+def subprocess_grid_cases():
+    """Real processes, with and without `python -O`, for every combination
+    of --no-gzip / --flat / sharding (16 cases)."""
+    base = [c for c in grid_cases() if c["stored"] == "uint8"
+            and c["encoding"] is None and c["method"] is None
+            and c["type"] is None and c["scaling"] is None
+            and c["minmax"] is None][0]
+    out = []
+    for opt in (0, 1):
+        for gz in (False, True):
+            for flat in (False, True):
+                for sharded in (False, True):
+                    c = dict(base, gzip=gz, flat=flat, repeat="both",
+                             sharding="1,1,0" if sharded else None,
+                             convert="raw", stats=True)
+                    c["seed"] = 2 * len(out) + opt   # parity selects -O
+                    out.append(c)
+    return out
+
+
+def run_subprocess_grid(ctx, n):
+    def check(ctx, case):
+        mode = "subprocess-O" if case["seed"] % 2 else "subprocess"
+        nscales = check_case(ctx, case, mode=mode)
+        if nscales is None:
+            return
+        ctx.record(case, nscales >= 2, [
+            mode, "gzip" if case["gzip"] else "no_gzip",
+            "flat" if case["flat"] else "deep",
+            "sharded" if case["sharding"] else "unsharded"])
+    ctx.run_grid(subprocess_grid_cases(), check)
+
+
 def replay(ctx, case):
     check_case(ctx, case)
 
@@ -477,4 +510,6 @@ SUBS = [
         shards=6, min_per_shard=2),
     Sub("option_grid", run_grid, replay, quick=1, thorough=1, shards=14,
         sweep=True),
+    Sub("subprocess_grid", run_subprocess_grid, replay, quick=1, thorough=1,
+        shards=8, sweep=True),
 ]
